@@ -261,10 +261,10 @@ theorem groupsOfSorted_nodup (l : RawDir) : ∀ acc : List Group,
     · exact ih _ h
     · exact ih _ (addFile_nodup _ _ _ h)
 
-theorem groups_keys_nodup (d : RawDir) : ((groups d).map (fun g => g.info.key)).Nodup :=
+theorem groups_keys_nodup (d : RawDir) : ((groupsOld d).map (fun g => g.info.key)).Nodup :=
   groupsOfSorted_nodup _ _ (by simp)
 
-theorem recover_length_le (d : RawDir) : (recover d).length ≤ (groups d).length :=
+theorem recover_length_le (d : RawDir) : (recoverOld d).length ≤ (groupsOld d).length :=
   List.length_filterMap_le _ _
 
 /-- all files carry the same parsed info: one group, files in directory order -/
@@ -404,8 +404,8 @@ theorem parse_rawOf (st : WState) (hinv : Inv st) (hs : st.seg < 184467440737095
 
 theorem groups_writer (st : WState) (hinv : Inv st) (hs : st.seg < 18446744073709551616)
     (hb : st.blkNum < 18446744073709551616) :
-    groups (rawOf st.files) = [{ info := infoOf st, files := readDir (rawOf st.files) }] := by
-  unfold groups
+    groupsOld (rawOf st.files) = [{ info := infoOf st, files := readDir (rawOf st.files) }] := by
+  unfold groupsOld
   have hp : ∀ f ∈ readDir (rawOf st.files), parseName f.1 = some (infoOf st) :=
     fun f hf => parse_rawOf st hinv hs hb f ((mem_readDir _ _).mp hf)
   cases hr : readDir (rawOf st.files) with
@@ -449,10 +449,10 @@ def curKey (st : WState) : Key := (dec st.shard, st.seg, st.blkNum)
 
 theorem recover_writer (st : WState) (hinv : Inv st) (hs : st.seg < 18446744073709551616)
     (hb : st.blkNum < 18446744073709551616) :
-    recover (rawOf st.files) =
+    recoverOld (rawOf st.files) =
       if ((readDir (rawOf st.files)).flatMap fileDps).isEmpty then []
       else [(curKey st, (readDir (rawOf st.files)).flatMap fileDps)] := by
-  unfold recover
+  unfold recoverOld
   rw [groups_writer st hinv hs hb]
   by_cases he : ((readDir (rawOf st.files)).flatMap fileDps).isEmpty = true
   · simp [groupDps, he]
@@ -461,7 +461,7 @@ theorem recover_writer (st : WState) (hinv : Inv st) (hs : st.seg < 184467440737
 /-- whatever the replay ORDER is: recovery after a crash of the writer flushes at most one block, the open one -/
 theorem recover_only_open_block (cap shard : Nat) (h : List Op)
     (hs : (run cap shard h).seg < 18446744073709551616) (hb : (run cap shard h).blkNum < 18446744073709551616) :
-    (recover (dirAfter cap shard h)).length ≤ 1 ∧ ∀ kv ∈ recover (dirAfter cap shard h), kv.1 = openKey cap shard h := by
+    (recoverOld (dirAfter cap shard h)).length ≤ 1 ∧ ∀ kv ∈ recoverOld (dirAfter cap shard h), kv.1 = openKey cap shard h := by
   unfold dirAfter
   rw [recover_writer _ (inv_run cap shard h) hs hb]
   have hk : curKey (run cap shard h) = openKey cap shard h := by
@@ -472,7 +472,7 @@ theorem recover_only_open_block (cap shard : Nat) (h : List Op)
 
 theorem replay_order_of_few (cap shard : Nat) (h : List Op) (hg : fewWalFiles cap shard h)
     (hs : (run cap shard h).seg < 18446744073709551616) (hb : (run cap shard h).blkNum < 18446744073709551616) :
-    (groups (dirAfter cap shard h)).map (·.files) = [dirAfter cap shard h] := by
+    (groupsOld (dirAfter cap shard h)).map (·.files) = [dirAfter cap shard h] := by
   unfold dirAfter
   rw [groups_writer _ (inv_run cap shard h) hs hb, readDir_writer _ (inv_run cap shard h) hg]
   rfl
@@ -901,9 +901,9 @@ theorem lookup_after {st : WState} {sp : Spec} (h : R st sp) (X : List Dp) (k : 
 /-- the main theorem: under the guard the recovered disk holds, for every block, exactly the completed datapoints -/
 theorem recover_exact (cap shard : Nat) (h : List Op) (hg : fewWalFiles cap shard h)
     (hs : (run cap shard h).seg < 18446744073709551616) (hb : (run cap shard h).blkNum < 18446744073709551616) (k : Key) :
-    lookup k (diskAfterRecovery cap shard h) = specBlock cap shard h k := by
+    lookup k (diskAfterRecoveryOld cap shard h) = specBlock cap shard h k := by
   have hr := R_run cap shard h
-  unfold diskAfterRecovery durableBlocks dirAfter
+  unfold diskAfterRecoveryOld durableBlocks dirAfter
   rw [recover_writer _ (inv_run cap shard h) hs hb, lookup_after hr,
     readDir_writer _ (inv_run cap shard h) hg, flatMap_rawOf]
   split
@@ -914,9 +914,9 @@ theorem recover_exact (cap shard : Nat) (h : List Op) (hg : fewWalFiles cap shar
 /-- without the guard: every datapoint is still there exactly once (a permutation), only the order can be wrong -/
 theorem recover_perm (cap shard : Nat) (h : List Op)
     (hs : (run cap shard h).seg < 18446744073709551616) (hb : (run cap shard h).blkNum < 18446744073709551616) (k : Key) :
-    (lookup k (diskAfterRecovery cap shard h)).Perm (specBlock cap shard h k) := by
+    (lookup k (diskAfterRecoveryOld cap shard h)).Perm (specBlock cap shard h k) := by
   have hr := R_run cap shard h
-  unfold diskAfterRecovery durableBlocks dirAfter
+  unfold diskAfterRecoveryOld durableBlocks dirAfter
   rw [recover_writer _ (inv_run cap shard h) hs hb, lookup_after hr]
   split
   · rename_i hk
@@ -932,14 +932,14 @@ theorem recover_perm (cap shard : Nat) (h : List Op)
 def mkDp (i : Nat) : Dp := { ts := 100 + i, val := i, tsid := 7 }
 def h11 : List Op := (List.range 12).flatMap (fun i => [Op.ingest 0 (mkDp i) false, Op.walFlush true])
 theorem h11_replay_order :
-    ((groups (dirAfter 100 0 h11)).map (fun g => g.files.map (fun f => String.ofList f.1))) =
+    ((groupsOld (dirAfter 100 0 h11)).map (fun g => g.files.map (fun f => String.ofList f.1))) =
       [["shardID_0_segID_0_blockID_0_0.wal", "shardID_0_segID_0_blockID_0_1.wal", "shardID_0_segID_0_blockID_0_10.wal",
         "shardID_0_segID_0_blockID_0_11.wal", "shardID_0_segID_0_blockID_0_12.wal", "shardID_0_segID_0_blockID_0_2.wal",
         "shardID_0_segID_0_blockID_0_3.wal", "shardID_0_segID_0_blockID_0_4.wal", "shardID_0_segID_0_blockID_0_5.wal",
         "shardID_0_segID_0_blockID_0_6.wal", "shardID_0_segID_0_blockID_0_7.wal", "shardID_0_segID_0_blockID_0_8.wal",
         "shardID_0_segID_0_blockID_0_9.wal"]] := by decide +kernel
 theorem h11_recovered :
-    (lookup (dec 0, 0, 0) (diskAfterRecovery 100 0 h11)).map (·.ts) = [100, 101, 110, 111, 102, 103, 104, 105, 106, 107, 108, 109]
+    (lookup (dec 0, 0, 0) (diskAfterRecoveryOld 100 0 h11)).map (·.ts) = [100, 101, 110, 111, 102, 103, 104, 105, 106, 107, 108, 109]
     ∧ (specBlock 100 0 h11 (dec 0, 0, 0)).map (·.ts) = [100, 101, 102, 103, 104, 105, 106, 107, 108, 109, 110, 111] := by
   decide +kernel
 end SigModel.Lemmas.C10R
